@@ -115,13 +115,15 @@ class SSMatches:
             self.k = self.ss.k
         if self.k is None:
             self.k = len(self.ss.kbest_distances)
+        if self.ss.kbest_distances is not None:
+            # There can be fewer than k matches (e.g. because of max_dist)
+            self.k = min(self.k, len(self.ss.kbest_distances))
 
     def __getitem__(self, key):
+        # Indices are relative to the k matches of this object, also when more are stored
         if isinstance(key, slice):
-            start = 0 if key.start is None else key.start
-            return [SSMatch(kip+start, self.ss) for kip, (_v, _i) in
-                    enumerate(self.ss.kbest_distances[key])]
-        return SSMatch(key, self.ss)
+            return [SSMatch(ki, self.ss) for ki in range(self.k)[key]]
+        return SSMatch(range(self.k)[key], self.ss)
 
     def __iter__(self):
         for ki, (_v, _i) in enumerate(self.ss.kbest_distances[:self.k]):
